@@ -136,7 +136,7 @@ var opWeights = []struct {
 func opWeight(c Case, kind string, w int) int {
 	switch {
 	case kind == "hls-get" && c.Hls:
-		return 14
+		return 20
 	case kind == "blacklist" && c.L3:
 		return 9
 	}
